@@ -297,33 +297,34 @@ def jobs(tier):
     J = []
     SE = [{"se": (0, 1)}, {"se": (58, 59)}] if not th else [{"se": (0, 4)}, {"se": (28, 32)}, {"se": (55, 59)}]
     for mode in (C.MODES4 if th else ["gregorian"]):
+        last = {"gregorian": 366, "360day": 360, "365day": 365, "366day": 366}[mode]
         for tz in (None, (0, 0), (5, 30), (-3, -30)):
             for props in ({"hour_of_day": 6}, {"minute_of_hour": 30}, {"second_of_minute": 15},
                           {"hour_of_day": 0}, {"hour_of_day": 23, "minute_of_hour": 59}):
                 for se in SE:
                     if tz not in (None, (5, 30)) and not th and props != {"hour_of_day": 6}:
                         continue
-                    rg = dict(se, DOY=(365, 366))
+                    rg = dict(se, DOY=(last - 1, last))
                     if "hour_of_day" in props:
                         rg["mi"] = (58, 59) if se["se"][0] else (0, 1)
                     elif "minute_of_hour" in props and tz is not None:
                         rg.update(mi=(28, 31) if se["se"][0] else (58, 59), h=(22, 23))
                     J.append(("job_time", dict(mode=mode, props=props, tz=tz, ranges=rg)))
-        J.append(("job_time", dict(mode=mode, props={"hour_of_day": 6}, tz=None, order="t+p", ranges={"se": (0, 1), "mi": (0, 1), "DOY": (365, 366)})))
-        J.append(("job_time", dict(mode=mode, props={"minute_of_hour": 30}, tz=(5, 30), order="t+p", ranges={"se": (58, 59), "mi": (28, 31), "h": (22, 23), "DOY": (365, 366)})))
+        J.append(("job_time", dict(mode=mode, props={"hour_of_day": 6}, tz=None, order="t+p", ranges={"se": (0, 1), "mi": (0, 1), "DOY": (last - 1, last)})))
+        J.append(("job_time", dict(mode=mode, props={"minute_of_hour": 30}, tz=(5, 30), order="t+p", ranges={"se": (58, 59), "mi": (28, 31), "h": (22, 23), "DOY": (last - 1, last)})))
         J.append(("job_time", dict(mode=mode, props={"hour_of_day": 6}, tz=None, rep="cal", ranges={"se": (0, 1), "mi": (0, 1), "M": (2, 3), "D": (27, 31)})))
         T0 = {"se": (0, 0), "mi": (0, 1)}
         for wd in (1, 4, 7):
             for res in ((104, 399) if not th else (0, 104, 203, 399)):
                 J.append(("job_day", dict(mode=mode, props={"day_of_week": wd}, rep="week", res=res, ranges=dict(T0, W=(51, 53)))))
-        J.append(("job_day", dict(mode=mode, props={"day_of_week": 3, "hour_of_day": 6}, rep="ord", res=104, ranges=dict(T0, DOY=(363, 366), h=(4, 7)))))
+        J.append(("job_day", dict(mode=mode, props={"day_of_week": 3, "hour_of_day": 6}, rep="ord", res=104, ranges=dict(T0, DOY=(last - 3, last), h=(4, 7)))))
         for D in ((1, 15, 28, 29, 30, 31) if th else (1, 29, 31)):
             for m in ((1, 3), (4, 12)) if D >= 29 else ((12, 12),):
                 J.append(("job_day", dict(mode=mode, props={"day_of_month": D}, rep="cal", ranges=dict(T0, M=m, h=(0, 0)))))
         J.append(("job_day", dict(mode=mode, props={"day_of_month": 31, "hour_of_day": 6}, rep="cal", ranges=dict(T0, M=(1, 3), D=(28, 31)))))
-        for N in ((1, 60, 365) if not th else (1, 60, 365, 366)):
+        for N in ((1, 60, min(365, last)) if not th else ((1, 60, min(365, last)) + ((366,) if last == 366 else ()))):
             J.append(("job_day", dict(mode=mode, props={"day_of_year": N}, rep="ord", lookahead=9 if N == 366 else 2,
-                                      ranges=dict(T0, h=(0, 0), DOY=(1, 3) if N == 1 else ((58, 62) if N == 60 else (363, 366))))))
+                                      ranges=dict(T0, h=(0, 0), DOY=(1, 3) if N == 1 else ((58, 62) if N == 60 else (last - 3, last))))))
         for W, wd in (((1, 1), (20, 5)) if not th else ((1, 1), (20, 5), (52, 7), (53, 1))):
             for res in ((104, 399) if not th else (0, 104, 203, 399)):
                 J.append(("job_day", dict(mode=mode, props={"week_of_year": W, "day_of_week": wd}, rep="week", res=res,
